@@ -6,10 +6,14 @@
   name (every other name, and every scope before the binder, is unchanged) and is rejected when no
   scope binds it; `{` opens an empty scope, `}` discards it, after which every name reads as
   before the block; an undeclared read is a located runtime error; `নাম x;` holds nil.
-  The lifting of these facts along whole program runs (loop iterations, function bodies) is the
-  control refinement of C02/C03/C05.
+  The lifting of these facts along whole program runs is the control refinement
+  (`Lemmas/Refine.lean`): `block_anywhere` — the flat run of a block anywhere in a structured program
+  is the block's structured meaning (statements in a fresh scope that is dropped at the end, however the
+  block ends; each loop pass runs the body block anew, so each iteration starts with a fresh scope), and
+  after normal completion the scope depth is what it was (`Post`'s `FrameN.depth`).
 -/
 import Pakhi.Lemmas.Assoc
+import Pakhi.Lemmas.FrameInv
 namespace Pakhi
 namespace C04
 
@@ -94,5 +98,14 @@ theorem decl_without_init (prog : List Stmt) (f : Nat) (cur : List Stmt) (v : To
     execAssign prog (f+1) cur { kind := .first, var := v, indexes := [], init := none } s =
       .ok { s with scopes := assocSet sc v.lexeme .nil :: r } := by
   simp [execAssign, h, declareVar]
+
+/-- **blocks anywhere**: the flat run of `{ … }` at any place of a structured program decomposes along the
+    block's structured meaning (`C03.block_drops_scope`); on normal completion the scope depth is restored -/
+theorem block_anywhere {prog : List Stmt} {α : Type} (h : Structured prog) (D : Driver prog α) (b : SBlock) (F : Nat) (k : List Stmt) (s : St)
+    (ctx : Option LC) (il : Bool) (r : Res α) (hw : b.WF) (hc : b.Closed il) (hctx : CtxOK ctx il false k s)
+    (hsuf : IsSuffixOf (b.flatten ++ k) prog) (hs : StOK (GoodFn prog) prog s) (hrun : D.run F (b.flatten ++ k) s = r) (hr : r ≠ .fuel) :
+    Post D ctx k s F r (sBlock prog F b k s) :=
+  block_refines h D b F k s ctx il r hw hc hctx hsuf hs hrun hr
+
 end C04
 end Pakhi
